@@ -8,7 +8,7 @@ for P in refactors/*.patch refactors/agents/*.patch refactors/agents2/*.patch; d
   WT="$(mktemp -d /tmp/vr.XXXXXX)"; EV="$(mktemp -d /tmp/vrev.XXXXXX)"
   git -C /repo worktree add -q --detach "$WT" HEAD
   if ! git -C "$WT" apply "$(readlink -f "$P")"; then echo "REFACTOR $(basename $P) APPLY-FAILED"; rc=1
-  elif ! (cd "$WT" && go build ./... >/dev/null 2>&1); then echo "REFACTOR $(basename $P) BUILD-FAILED"; (cd "$WT" && go build ./... 2>&1 | head -5); rc=1
+  elif ! (cd "$WT" && go build -trimpath ./... >/dev/null 2>&1); then echo "REFACTOR $(basename $P) BUILD-FAILED"; (cd "$WT" && go build -trimpath ./... 2>&1 | head -5); rc=1
   else
     fired=$(bin/verifchk -repo "$WT" -prop all -evidence "$EV" 2>&1 | grep -A2 '^VIOLATION' | cut -c1-260)
     if [ -z "$fired" ]; then echo "REFACTOR $(basename $P) SILENT (ok)"; else echo "REFACTOR $(basename $P) FALSE-ALARM"; echo "$fired"; rc=1; fi
